@@ -1,6 +1,7 @@
 package an
 
 import (
+	"go/token"
 	"fmt"
 	"go/types"
 	"strings"
@@ -127,7 +128,17 @@ func c10Anchored(p *Prog, r *Report) {
 		rc := f.Ev("return", "").Guarded("recv.closed")
 		q.Req(R, f.Name+"/second-close-ErrClosed", len(rc) == 1 && rc[0].Args[0] == "ErrClosed", rc.Pos(p), "ErrClosed when already closed", "Close on a closed socket does not return ErrClosed")
 		st := f.Ev("store", "recv.closed").Arg(0, "true")
-		q.Req(R, f.Name+"/sets-closed", len(st) == 1 && st.AllGuarded("!recv.closed") && len(st[0].Held) > 0, st.Pos(p), "closed=true under the lock, once", "Close does not set closed=true under the lock on the !closed edge")
+		okSet := len(st) == 1 && st.AllGuarded("!recv.closed") && len(st[0].Held) > 0
+		if !okSet && len(st) == 1 && len(st[0].Guard) == 0 && len(st[0].Held) > 0 && len(rc) == 1 {
+			// test-and-set form: `was := s.closed; s.closed = true` in one critical section,
+			// the second Close recognised by the value read before the store
+			EachInstr(fn, func(in ssa.Instruction) {
+				if u, ok := in.(*ssa.UnOp); ok && u.Op == token.MUL && Desc(u.X) == "recv.closed" && InstrDominates(in, st[0].In) && p.SameSection(in, st[0].In) {
+					okSet = true
+				}
+			})
+		}
+		q.Req(R, f.Name+"/sets-closed", okSet, st.Pos(p), "closed=true under the lock, once", "Close does not set closed=true under the lock on the !closed edge")
 	}
 	r.Count("c10.protocol_close_impls", n)
 	r.Floor(R, "c10.protocol_close_impls", 17)
